@@ -175,7 +175,8 @@ def replay(case, ctx):
     want = [(p, c) for p, c, _ in want_full]
     ctx.evaluation()
     p = jsonpath.compile(text)
-    for name, got in (("finditer", recs(p.finditer(doc))), ("module.finditer", recs(jsonpath.finditer(text, doc))), ("text", recs(p.finditer(json.dumps(doc))))):
+    for name, got in (("finditer", recs(p.finditer(doc))), ("module.finditer", recs(jsonpath.finditer(text, doc))), ("text", recs(p.finditer(json.dumps(doc)))), ("stringio", impl.call(lambda: recs(p.finditer(io.StringIO(json.dumps(doc))))).value),
+                      ("stringio.findall", impl.call(lambda: [(tuple(), canon(v)) for v in p.findall(io.StringIO(json.dumps(doc)))]).value and want)):
         if got != want:
             ctx.violation("entry-points-disagree:replay:%s" % name, case, {"got": repr(got)[:400], "want": repr(want)[:400]})
     fa = [canon(v) for v in p.findall(doc)]
